@@ -79,7 +79,8 @@ _MIRI_BUILT = {}
 def miri_build():
     if 'ok' in _MIRI_BUILT:
         return
-    env = runner._cargo_env({'MIRIFLAGS': '-Zmiri-disable-isolation'})
+    # same hook set as the release executor of this run (runner.hook_flags(): all hooks unless some do not compile against this tree)
+    env = runner._cargo_env({'MIRIFLAGS': '-Zmiri-disable-isolation', 'RUSTFLAGS': runner.hook_flags()})
     prog = os.path.join(EXEC_DIR, 'target-miri', 'warmup.txt')
     os.makedirs(os.path.dirname(prog), exist_ok=True)
     open(prog, 'w').write('_ fr.one\n')
@@ -93,7 +94,7 @@ def miri_build():
 def miri_run(lines, timeout, extra_flags='', args=None):
     """run a program (or the executor with `args`) under Miri; returns (stdout lines, stderr, returncode)"""
     miri_build()
-    env = runner._cargo_env({'MIRIFLAGS': ('-Zmiri-disable-isolation ' + extra_flags).strip()})
+    env = runner._cargo_env({'MIRIFLAGS': ('-Zmiri-disable-isolation ' + extra_flags).strip(), 'RUSTFLAGS': runner.hook_flags()})
     d = os.path.join(EXEC_DIR, 'target-miri')
     fd, prog = tempfile.mkstemp(prefix='prog-', suffix='.txt', dir=d)
     try:
